@@ -46,6 +46,17 @@ def run(repo, rep):
     pk, npaths, loc = peek_problems(repo)
     rep.check(not pk, 'C01.O11', 'pdu:_next_type:peek', loc.split(':')[0],
               '%d paths: one byte read, stepped back, its value returned' % npaths, '; '.join(pk))
+    rep.rule('C01.O12', 'encoders and constructors are total on representable values: no guard in front of the packer (a raise '
+             'reachable in __init__ / encode, helpers included) fires for a value its field can carry -- folded at 0 and at the '
+             'largest value of the field\'s struct code', 20)
+    from ..codec_rules import guard_problems
+    for c in lx.concrete_classes():
+        try:
+            gp, n_raise = guard_problems(lx, c)
+        except AnalysisError:
+            continue        # the layout itself is not read: reported by the round-trip rules below
+        rep.check(not gp, 'C01.O12', 'pdu:%s:guards' % c.name, c.loc(), '%d raise path(s), none for a representable value' % n_raise,
+                  '; '.join(gp))
     try:
         check_roundtrip(lx, rep, 'C01')
     except AnalysisError:
